@@ -25,6 +25,7 @@ type Endpoint struct {
 	Unit     time.Duration // granularity of the start/end parameters
 	Bucket   time.Duration // range bucket of the query (0: none)
 	Lookback time.Duration // data needed before Start (PromQL range / lookback delta, instant LogQL queries)
+	Offset   time.Duration // the whole data window is shifted back (PromQL `offset`): [Start-Offset-Lookback, End-Offset]
 	UpIncl   bool          // API convention: end is inclusive (Prometheus)
 	Family   string        // lm | tr | pf
 	NoWindow bool          // the API has no time parameters at all (Tempo v1 tags / tag values)
@@ -34,6 +35,21 @@ type Endpoint struct {
 }
 
 func secs(ns int64) string { return strconv.FormatFloat(float64(ns)/1e9, 'f', 3, 64) }
+
+// rfc3339 writes the instant with its fractional part: the only spelling of the Prometheus API whose sub-second part
+// reaches the engine (numbers are cut to whole seconds by the controller)
+func rfc3339(ns int64) string { return time.Unix(0, ns).UTC().Format(time.RFC3339Nano) }
+
+// subMs is the sub-second part (milliseconds, never 0) of the PromQL offsets / ranges of the sub-second select
+// endpoints; chosen by the seed (-seed)
+var subMs int64 = 250
+
+func msDur(sec int64) string {
+	if sec == 0 {
+		return fmt.Sprintf("%dms", subMs)
+	}
+	return fmt.Sprintf("%ds%dms", sec, subMs)
+}
 
 func lokiRange(q string, step string) func(x *X, w Win) (int, string) {
 	return func(x *X, w Win) (int, string) {
@@ -96,6 +112,15 @@ func promRange(q string, step int) func(x *X, w Win) (int, string) {
 		v.Set("end", secs(w.End))
 		v.Set("step", fmt.Sprint(step))
 		return x.promGet("/api/v1/query_range?" + v.Encode())
+	}
+}
+
+func promInstantRFC(q string) func(x *X, w Win) (int, string) {
+	return func(x *X, w Win) (int, string) {
+		v := url.Values{}
+		v.Set("query", q)
+		v.Set("time", rfc3339(w.End))
+		return x.promGet("/api/v1/query?" + v.Encode())
 	}
 }
 
@@ -181,8 +206,50 @@ func endpoints() []Endpoint {
 			if step != 30 && p.name == "rate_10s_sparse" {
 				continue
 			}
-			eps = append(eps, Endpoint{Name: fmt.Sprintf("prom.query_range.%s.step%d", p.name, step), API: "prom", Signal: 2, Metric: true, Unit: time.Millisecond,
+			// Unit: the controller aligns start / end to whole 15 s and steps are whole seconds: every evaluation instant
+			// is a whole second, a fraction of start / end cannot change which samples are needed
+			eps = append(eps, Endpoint{Name: fmt.Sprintf("prom.query_range.%s.step%d", p.name, step), API: "prom", Signal: 2, Metric: true, Unit: time.Second,
 				Lookback: p.lookback, UpIncl: true, Family: "lm", Call: promRange(p.q, step), Thorough: p.thorough || (step == 7 && p.name != "selector" && p.name != "rate_1m")})
+		}
+	}
+	// ---- Prometheus selects whose window [hints.Start, hints.End] is NOT on whole seconds. Three ways lead there:
+	// an RFC 3339 evaluation time with a fraction (instant queries), a PromQL offset with a millisecond part (shifts
+	// both ends), a range with a millisecond part (shifts the start). Every hint function kind (plain selector,
+	// instant-vector function, range-vector function - supported and unsupported by the 15 s path -, aggregation) on
+	// instant queries and on range queries with steps 15 s and 7 s.
+	off := time.Duration(subMs) * time.Millisecond
+	type sq struct {
+		name, q  string
+		lookback time.Duration
+		offset   time.Duration
+		thorough bool
+	}
+	sqs := []sq{
+		{"selector", `m1{app="a1"}`, 5 * time.Minute, 0, false},
+		{"rate_1m", `rate(m1{app="a1"}[1m])`, time.Minute, 0, false},
+		{"selector_offset_ms", `m1{app="a1"} offset ` + msDur(0), 5 * time.Minute, off, false},
+		{"selector_offset_s_ms", `m1{app="a1"} offset ` + msDur(7), 5 * time.Minute, 7*time.Second + off, true},
+		{"abs_offset_ms", `abs(m1{app="a1"} offset ` + msDur(0) + `)`, 5 * time.Minute, off, true},
+		{"rate_range_ms", `rate(m1{app="a1"}[` + msDur(60) + `])`, time.Minute + off, 0, false},
+		{"sum_over_time_offset_ms", `sum_over_time(m1{app="a1"}[1m] offset ` + msDur(0) + `)`, time.Minute, off, true},
+		{"quantile_over_time_range_ms", `quantile_over_time(0.5, m1{app="a1"}[` + msDur(60) + `])`, time.Minute + off, 0, true},
+		{"last_over_time_range_offset_ms", `last_over_time(m1{app="a1"}[` + msDur(30) + `] offset ` + msDur(1) + `)`, 30*time.Second + off, time.Second + off, true},
+		{"sum_by_offset_ms", `sum by (pos) (m1{app="a1"} offset ` + msDur(0) + `)`, 5 * time.Minute, off, false},
+		{"topk_by_offset_ms", `topk by (pos) (1, m1{app="a1"} offset ` + msDur(3) + `)`, 5 * time.Minute, 3*time.Second + off, true},
+	}
+	for _, p := range sqs {
+		// instant, RFC 3339 time with a fraction (milliseconds: the engine's resolution)
+		eps = append(eps, Endpoint{Name: "prom.query.instant_rfc3339." + p.name, API: "prom", Signal: 2, Metric: true, Unit: time.Millisecond, Lookback: p.lookback, Offset: p.offset,
+			UpIncl: true, Family: "lm", Instant: true, Call: promInstantRFC(p.q), Thorough: p.thorough})
+		if p.offset == 0 && p.lookback%time.Second == 0 {
+			continue
+		}
+		// instant with a whole-second time, range queries: the sub-second part comes from the query text
+		eps = append(eps, Endpoint{Name: "prom.query.instant_subsec." + p.name, API: "prom", Signal: 2, Metric: true, Unit: time.Second, Lookback: p.lookback, Offset: p.offset,
+			UpIncl: true, Family: "lm", Instant: true, Call: promInstant(p.q), Thorough: true})
+		for _, step := range []int{15, 7} {
+			eps = append(eps, Endpoint{Name: fmt.Sprintf("prom.query_range.subsec.%s.step%d", p.name, step), API: "prom", Signal: 2, Metric: true, Unit: time.Second,
+				Lookback: p.lookback, Offset: p.offset, UpIncl: true, Family: "lm", Call: promRange(p.q, step), Thorough: p.thorough || step == 7 && p.name != "selector_offset_ms"})
 		}
 	}
 	// ---- Tempo
